@@ -60,6 +60,36 @@ CHECKS = {
             'Generated data, mixed basis-function lists, add_one, single_core, second data set (Gram) and HOCUR settings; the '
             'transformed data tensor is compared with the explicit product formula. Exploration, not proof.',
             'HOCUR ranks >= m; ill-conditioned cases (singular-value ratios of an unfolding in (1e-13, 1e-4)) are discarded.', '3/C15'),
+    'C07': ('property-based testing (Hypothesis): dense numpy.linalg.solve reference, energy-norm descent, fixed point, solve == lu',
+            'Generated Hermitian positive-definite systems (real/complex, dense and local-sum operators, N <= 64/256), guess classes '
+            '(maximal, rank 1, admissible incl. left-over-parameterised, exact solution in a random gauge), repeats, micro-solvers, '
+            'MALS thresholds and caps; checks descent versus the guess and in the sweep count, fixed point, exactness at full rank, '
+            'shape/rank clauses and that operands are untouched. Exploration, not proof.',
+            'Trusts NumPy; guesses have full-rank interfaces; MALS descent only without effective truncation; kappa <= 100.', '3/C07'),
+    'C08': ('property-based testing (Hypothesis): dense scipy.linalg.eigh reference, Rayleigh quotient, metamorphic deflation == explicit shift, inverse-iteration bound',
+            'Generated Hermitian (generalised) eigenproblems, real/complex, solvers eig/eigh/eigs, sigma, number_ev, repeats, '
+            'deflation sets; checks Ritz-pair consistency, upper bound, monotonicity towards sigma, retention of exact pairs, '
+            'exactness at full rank, the deflation/shift metamorphic relation and the power-method convergence bound. Exploration.',
+            'Trusts SciPy eigh; exact-pair retention uses right-orthonormal guesses; number_ev = 2 needs interior ranks >= 2; see '
+            'DESIGN C08.', '3/C08'),
+    'C09': ('property-based testing (Hypothesis): differential against the dense defining recurrences and defect formulas',
+            'Generated operators (Markov generators for 1-norm normalisation, general real/complex otherwise, rank <= 3 for HOD), '
+            'varying step lists, ALS/MALS and micro-solver options, normalisation modes, HOD orders and starts; trajectories are '
+            'compared state by state with the dense recurrence; estimators with the defect formulas on arbitrary TT lists; ordering '
+            'invariants of the adaptive method. Exploration, not proof.',
+            'Trusts NumPy; no effective truncation; implicit schemes start from maximal-rank guesses.', '3/C09'),
+    'C10': ('property-based testing (Hypothesis): differential against products of scipy.linalg.expm of harness-assembled even/odd generators + measured convergence order',
+            'Generated SLIM components (homogeneous arrays and per-site lists, 2-D/3-D couplings, generic/skew-Hermitian/stochastic), '
+            'chain lengths 2..6, steps and step sizes; one step of each scheme is compared with the composed local exponentials, the '
+            'convergence order is measured against expm(TA), norms are checked for skew-Hermitian generators and normalisation. '
+            'Exploration, not proof.',
+            'Trusts SciPy expm and the published Yoshida / Kahan-Li coefficients; max_rank large enough that nothing is cut.', '3/C10'),
+    'C11': ('property-based testing (Hypothesis): differential against scipy.linalg.expm(-i t H) x0 plus norm/energy invariants',
+            'Generated Hermitian Hamiltonians (real/complex), right-orthonormal initial states of maximal / intermediate / rank-1 '
+            'ranks, step sizes, step counts, thresholds and caps; exactness at maximal rank for tdvp1site, tdvp2site, hybrid tdvp and '
+            'full-dimension Krylov; norm and energy conservation of tdvp1site at every rank; trajectory structure; inputs untouched. '
+            'Exploration, not proof.',
+            'Trusts SciPy expm; initial states are right-orthonormal and of order >= 2; Krylov only for N <= 16.', '3/C11'),
 }
 
 BUILT = set(CHECKS)
